@@ -31,7 +31,8 @@ Inductive fn : Type :=
 | FMaxLenValid | FNrSpecific | FResize | FAggKey
 | FIdent | FStrOrReplace | FPushConverted | FFromHandle | FPushHandle | FToHandle | FSplitKey
 | FPathSegments | FStripTrailing | FUserAgent | FCertName
-| FRpkiAsn | FAspa | FBgpsecKey.
+| FRpkiAsn | FAspa | FBgpsecKey
+| FRfc8181Uri | FCaServiceUri.
 
 Inductive obs : Type := OOk (v : cval) | OErr | OPanic | ODbgPanic.
 
@@ -56,6 +57,8 @@ Definition on_payload {B} (s : str) (g : payload -> outcome B) : outcome B :=
   end.
 
 Definition X : str := [120].   (* the builder content "x" used by the harness *)
+(** service_uri of the harness configuration: "https://localhost:3000/" *)
+Definition BASE : str := [104; 116; 116; 112; 115; 58; 47; 47; 108; 111; 99; 97; 108; 104; 111; 115; 116; 58; 51; 48; 48; 48; 47].
 
 Definition model (f : fn) (s : str) : outcome cval :=
   match f with
@@ -88,6 +91,10 @@ Definition model (f : fn) (s : str) : outcome cval :=
   | FRpkiAsn => pure_out (pmap CN (rpki_asn_from_str s))
   | FAspa => pure_out (pmap (fun '(c, ps) => CL [CN c; CL (map CN ps)]) (aspa_from_str s))
   | FBgpsecKey => pure_out (pmap (fun '(a, k) => CL [CN a; CB k]) (bgpsec_key_from_str s))
+  | FRfc8181Uri => pure_out (let! h := handle_from_str s in pmap CB (rfc8181_uri BASE h))
+  (* observed through CaManager::ca_parent_response for a CA that does not exist: the URI is built first
+     (manager.rs:879), then the CA lookup fails - so "URI ok" is observed as an error too *)
+  | FCaServiceUri => pure_out (let! h := handle_from_str s in let! _ := service_uri_for_ca BASE h in PErr)
   end.
 
 Definition obs_of (r : pres cval) : obs := match r with POk v => OOk v | PErr => OErr | PPanic => OPanic end.
